@@ -93,8 +93,9 @@ func (grp *Group) Use(args ...any) Router {
 
 	for _, prefix := range prefixes {
 		if subApp != nil {
+			// every prefix of the list, like for handlers
 			grp.mount(prefix, subApp)
-			return grp
+			continue
 		}
 
 		grp.app.register([]string{methodUse}, getGroupPath(grp.Prefix, prefix), grp, handlers...)
